@@ -74,14 +74,14 @@ def parse_vspec(path):
             # optional numeric arg
             mm = re.match(r"^(\d+|\*)\s*(.*)$", rest)
             if mm and kind in ("loop", "inv", "invxb", "loopensures", "loopdec", "body-start", "body-end",
-                               "before", "after", "replace", "block-end", "inherit"):
+                               "before", "after", "replace", "block-end", "inherit", "closure-spec"):
                 arg = 0 if mm.group(1) == "*" else int(mm.group(1))
                 rest = mm.group(2).strip()
             mt = re.match(r"^\[([^\]]*)\]\s*(.*)$", rest)
             if mt:
                 tags = [x.strip() for x in mt.group(1).split(",") if x.strip()]
                 rest = mt.group(2).strip()
-            if kind in ("before", "after", "replace", "block-end"):
+            if kind in ("before", "after", "replace", "block-end", "closure-spec"):
                 ma = re.match(r'^`(.*)`\s*$', rest)
                 if not ma:
                     raise ExtractError("%s:%d anchor must be in backticks" % (path, ln))
@@ -354,6 +354,35 @@ def weave_function(src_fn, spec, path, W, opts, meta):
                 pk = prev_sig(toks, bc)
                 semi = "" if toks[pk].text in (";", "}", "{") else ";"
                 add(bc, semi + "\n" + c.body + "\n", ob("hint", c, {"name": "end-of:%s#%d[%s]" % (c.name, c.arg if c.arg else hn, ",".join(c.tags))}) if c.tags else None)
+        for c in spec.of("closure-spec"):
+            # anchor = text up to and including the closure's parameter list `|..|`; the spec goes between
+            # the parameters and the body; a brace-less `match` body is wrapped in braces (ghost-neutral)
+            for hn, (a, b) in enumerate(find_anchor(toks[:body_close + 1], c.name, 1 if c.arg is None else c.arg), 1):
+                nb = next_sig(toks, b - 1)
+                o = ob("closure-ensures", c, {"name": "%s#%d[%s]" % (c.name, c.arg if c.arg else hn, ",".join(c.tags))}) if c.tags else None
+                if toks[nb].text == "{":
+                    add(nb, "\n" + c.body + "\n", o)
+                elif toks[nb].text == "match":
+                    m2 = next_sig(toks, nb)
+                    while toks[m2].text != "{":
+                        if toks[m2].text in ("(", "["):
+                            m2 = match_close(toks, m2)
+                        m2 = next_sig(toks, m2)
+                    mc = match_close(toks, m2)
+                    add(nb, "\n" + c.body + "\n{ ", o)
+                    add(mc + 1, " }")
+                else:
+                    # expression body: runs up to the `,` or `)` that ends the closure argument
+                    j = nb
+                    while True:
+                        if toks[j].text in ("(", "[", "{"):
+                            j = match_close(toks, j) + 1
+                            continue
+                        if toks[j].text in (")", ","):
+                            break
+                        j += 1
+                    add(nb, "\n" + c.body + "\n{ ", o)
+                    add(j, " }")
         for c in spec.of("replace"):
             for hn, (a, b) in enumerate(find_anchor(toks[:body_close + 1], c.name, 1 if c.arg is None else c.arg), 1):
                 # ghost-only replacement (names a closure's return value); checked: the replacement
